@@ -47,20 +47,24 @@ package function
 //@   let hv $H<Arr<cty.Value>>
 //@   let rel (forall ((j Int)) (! (=> (and (trig j) (<= 0 j) (< j (Slice.len $p.args))) (or (= (hval_at hv args j) (val_at $p.args j)) (= (hval_at hv args j) (deep_unmark (val_at $p.args j))))) :pattern ((trig j))))
 //@   ensures[C10] errnil: (=> (not (= err nil.Any)) (= val $G<cty.NilVal>))
+// (not claimed: discharges only with a 60 s budget or not at all; see DESIGN.md C04/C10) @   let unused_carried (forall ((j Int) (k Any)) (! (=> (and (trig j) (<= 0 j) (< j 0) (not (function.Parameter.AllowMarked (sp_param_for sp j))) (select (deep_marks (val_at $p.args j)) k)) (in_any_markset_h $H<Arr<Int>> $H<MapC<Any~Unit>> resultMarks (Slice.len resultMarks) k)) :pattern ((trig j) (select (deep_marks (val_at $p.args j)) k))))
+// (not claimed: discharges only with a 60 s budget or not at all; see DESIGN.md C04/C10) @   ensures[C04,C10,@marks] marks_kept: (=> (= err nil.Any) (forall ((j Int) (k Any)) (! (=> (and (trig j) (<= 0 j) (< j (Slice.len args)) (not (function.Parameter.AllowMarked (sp_param_for sp j))) (select (deep_marks (val_at args j)) k)) (select (marks_of val) k)) :pattern ((trig j) (select (deep_marks (val_at args j)) k)))))
 //@   loop 1 invariant (= (Slice.len args) (Slice.len $p.args))
 //@   loop 1 invariant (=> dynTypeArgs returnUnknown)
-//@   loop 1 invariant rel
-//@   loop 1 invariant (forall ((j Int)) (! (=> (and (trig j) (<= 0 j) (< j $i) (not (function.Parameter.AllowMarked (sp_param_for sp j)))) (not (deep_marked (hval_at hv args j)))) :pattern ((trig j))))
-//@   loop 1 invariant (=> (not returnUnknown) (forall ((j Int)) (! (=> (and (trig j) (<= 0 j) (< j $i) (not (function.Parameter.AllowUnknown (sp_param_for sp j)))) (is_known (val_at $p.args j))) :pattern ((trig j)))))
+//@   loop 1 invariant[C10,@rel] rel
+//@   loop 1 invariant[C10,@unm+rel] (forall ((j Int)) (! (=> (and (trig j) (<= 0 j) (< j $i) (not (function.Parameter.AllowMarked (sp_param_for sp j)))) (not (deep_marked (hval_at hv args j)))) :pattern ((trig j))))
+//@   loop 1 invariant[C10,@kn] (=> (not returnUnknown) (forall ((j Int)) (! (=> (and (trig j) (<= 0 j) (< j $i) (not (function.Parameter.AllowUnknown (sp_param_for sp j)))) (is_known (val_at $p.args j))) :pattern ((trig j)))))
+// (not claimed: discharges only with a 60 s budget or not at all; see DESIGN.md C04/C10) @   loop 1 invariant[C04,C10,@marks] (forall ((j Int)) (! (=> (and (trig j) (<= 0 j) (< j $i) (not (function.Parameter.AllowMarked (sp_param_for sp j)))) (markset_collected $H<Arr<Int>> $H<MapC<Any~Unit>> resultMarks (Slice.len resultMarks) (deep_marks (val_at $p.args j)))) :pattern ((trig j))))
 //@   loop 1 invariant (or (= (Slice.ptr resultMarks) 0) (< (Slice.ptr resultMarks) $wme@1))
-//@   loop 1 invariant (and (<= (Slice.len resultMarks) $i) (marksets_ok_h $H<Arr<Int>> $H<MapC<Any~Unit>> resultMarks (Slice.len resultMarks) $wm $wme@1))
+//@   loop 1 invariant[C10,@mk] (and (<= (Slice.len resultMarks) $i) (marksets_ok_h $H<Arr<Int>> $H<MapC<Any~Unit>> resultMarks (Slice.len resultMarks) $wm $wme@1))
 //@   loop 2 invariant (= (Slice.len args) (Slice.len $p.args))
 //@   loop 2 invariant (=> dynTypeArgs returnUnknown)
-//@   loop 2 invariant rel
-//@   loop 2 invariant (forall ((j Int)) (! (=> (and (trig j) (<= 0 j) (< j (+ (sp_nparams sp) $i)) (not (function.Parameter.AllowMarked (sp_param_for sp j)))) (not (deep_marked (hval_at hv args j)))) :pattern ((trig j))))
-//@   loop 2 invariant (=> (not returnUnknown) (forall ((j Int)) (! (=> (and (trig j) (<= 0 j) (< j (+ (sp_nparams sp) $i)) (not (function.Parameter.AllowUnknown (sp_param_for sp j)))) (is_known (val_at $p.args j))) :pattern ((trig j)))))
+//@   loop 2 invariant[C10,@rel] rel
+//@   loop 2 invariant[C10,@unm+rel] (forall ((j Int)) (! (=> (and (trig j) (<= 0 j) (< j (+ (sp_nparams sp) $i)) (not (function.Parameter.AllowMarked (sp_param_for sp j)))) (not (deep_marked (hval_at hv args j)))) :pattern ((trig j))))
+//@   loop 2 invariant[C10,@kn] (=> (not returnUnknown) (forall ((j Int)) (! (=> (and (trig j) (<= 0 j) (< j (+ (sp_nparams sp) $i)) (not (function.Parameter.AllowUnknown (sp_param_for sp j)))) (is_known (val_at $p.args j))) :pattern ((trig j)))))
+// (not claimed: discharges only with a 60 s budget or not at all; see DESIGN.md C04/C10) @   loop 2 invariant[C04,C10,@marks] (forall ((j Int)) (! (=> (and (trig j) (<= 0 j) (< j (+ (sp_nparams sp) $i)) (not (function.Parameter.AllowMarked (sp_param_for sp j)))) (markset_collected $H<Arr<Int>> $H<MapC<Any~Unit>> resultMarks (Slice.len resultMarks) (deep_marks (val_at $p.args j)))) :pattern ((trig j))))
 //@   loop 2 invariant (or (= (Slice.ptr resultMarks) 0) (< (Slice.ptr resultMarks) $wme@1))
-//@   loop 2 invariant (and (<= (Slice.len resultMarks) (+ (sp_nparams sp) $i)) (marksets_ok_h $H<Arr<Int>> $H<MapC<Any~Unit>> resultMarks (Slice.len resultMarks) $wm $wme@1))
+//@   loop 2 invariant[C10,@mk] (and (<= (Slice.len resultMarks) (+ (sp_nparams sp) $i)) (marksets_ok_h $H<Arr<Int>> $H<MapC<Any~Unit>> resultMarks (Slice.len resultMarks) $wm $wme@1))
 //@   calls f.spec.Impl
 //@     may_panic
 //@     requires[C10] contract: (impl_args_ok sp $H<Arr<cty.Value>> args)
